@@ -14,6 +14,12 @@
 //!                     two-segment relative path `source owner` and the root path `:admin`.
 //!
 //! Validation arguments repeat at runtime what the IDL arguments say, so the IDL is what the program checks.
+//!
+//! Second purpose (added after the seeded change C17j): types that use `#[type_to_idl(skip)]`, documented as "this field
+//! and all remaining fields will be skipped in the IDL definition" - the described layout is a PREFIX of the runtime
+//! layout.  `NoteMid` / `NoteLast` / `NoteFirst` / `NoteEvent` (borsh instruction arguments) and `Journal` / `Stamp`
+//! (zero-copy account data) carry the attribute on a middle, the last and the first field and inside an enum variant;
+//! `C17_SKIP_MANIFEST` states their FULL field lists (what the runtime (de)serialises), written by hand beside them.
 #![allow(clippy::all)]
 use star_frame::prelude::*;
 
@@ -26,6 +32,10 @@ pub enum PdaInstructionSet {
     OpenLedger(OpenLedger),
     MoveFunds(MoveFunds),
     Settle(Settle),
+    NoteMid(NoteMid),
+    NoteLast(NoteLast),
+    NoteFirst(NoteFirst),
+    NoteEvent(NoteEvent),
 }
 
 // ------------------------------------------------------------------------------------------ account types + seeds
@@ -206,6 +216,140 @@ fn Settle(accounts: &mut SettleAccounts) -> Result<()> {
     Ok(())
 }
 
+// ------------------------------------------------------------------------------------------ #[type_to_idl(skip)]
+/// account data, skip in the MIDDLE: the IDL describes `owner`, `count`; `scratch` and `tail` are hidden
+#[zero_copy(pod)]
+#[derive(Default, Debug, Eq, PartialEq, ProgramAccount)]
+pub struct Journal {
+    pub owner: Pubkey,
+    pub count: u64,
+    #[type_to_idl(skip)]
+    pub scratch: u16,
+    pub tail: u32,
+}
+
+/// account data, skip on the FIRST field: the IDL describes nothing
+#[zero_copy(pod)]
+#[derive(Default, Debug, Eq, PartialEq, ProgramAccount)]
+pub struct Stamp {
+    #[type_to_idl(skip)]
+    pub secret: u32,
+    pub shown: u64,
+}
+
+#[derive(AccountSet, Debug)]
+pub struct NoteAccounts {
+    pub author: Signer,
+    pub journal: Mut<Account<Journal>>,
+    pub stamp: Account<Stamp>,
+}
+
+/// instruction arguments, skip in the MIDDLE
+#[derive(BorshSerialize, BorshDeserialize, Debug, InstructionArgs)]
+pub struct NoteMid {
+    pub version: u8,
+    pub owner: Pubkey,
+    #[type_to_idl(skip)]
+    pub scratch: u16,
+    pub total: u64,
+    pub flag: bool,
+}
+
+/// instruction arguments, skip on the LAST field
+#[derive(BorshSerialize, BorshDeserialize, Debug, InstructionArgs)]
+pub struct NoteLast {
+    pub version: u8,
+    pub total: i64,
+    #[type_to_idl(skip)]
+    pub scratch: [u8; 3],
+}
+
+/// instruction arguments, skip on the FIRST field
+#[derive(BorshSerialize, BorshDeserialize, Debug, InstructionArgs)]
+pub struct NoteFirst {
+    #[type_to_idl(skip)]
+    pub secret: u32,
+    pub shown: u64,
+}
+
+/// an enum whose variants skip a middle field / the last field
+#[derive(BorshSerialize, BorshDeserialize, Debug, Clone, Copy, TypeToIdl)]
+#[repr(u8)]
+pub enum Event {
+    Nothing,
+    Transfer {
+        amount: u64,
+        #[type_to_idl(skip)]
+        memo_len: u8,
+        fee: u32,
+    },
+    Mark {
+        at: u32,
+        by: Pubkey,
+        #[type_to_idl(skip)]
+        nonce: u16,
+    },
+    Plain {
+        a: u16,
+        b: u8,
+    },
+}
+
+/// instruction arguments whose LAST field is that enum (a hidden suffix anywhere else would shift what follows it)
+#[derive(BorshSerialize, BorshDeserialize, Debug, InstructionArgs)]
+pub struct NoteEvent {
+    pub tag: u8,
+    pub event: Event,
+}
+
+#[star_frame_instruction]
+fn NoteMid(accounts: &mut NoteAccounts) -> Result<()> {
+    let _ = accounts;
+    Ok(())
+}
+#[star_frame_instruction]
+fn NoteLast(accounts: &mut NoteAccounts) -> Result<()> {
+    let _ = accounts;
+    Ok(())
+}
+#[star_frame_instruction]
+fn NoteFirst(accounts: &mut NoteAccounts) -> Result<()> {
+    let _ = accounts;
+    Ok(())
+}
+#[star_frame_instruction]
+fn NoteEvent(accounts: &mut NoteAccounts) -> Result<()> {
+    let _ = accounts;
+    Ok(())
+}
+
+/// The FULL layouts of the types above as the runtime (de)serialises them, written by hand from the declarations
+/// (nothing here is derived from the IDL): per type its kind ("args" = borsh instruction data after the discriminant,
+/// "account" = account data after the discriminant) and its layout
+///   "u8" | "u16" | "u32" | "u64" | "i64" | "bool" | "pubkey" | {"array": [layout, n]}
+///   | {"struct": [[field, layout]..], "skip": index of the field carrying #[type_to_idl(skip)] or null}
+///   | {"enum": [[variant, discriminant, null | struct layout]..]}                       (one discriminant byte)
+/// lib/props/c17.py drives the real parsers with bytes laid out like this, requires the real serialiser to give the same
+/// bytes back and the Debug rendering to show these fields, and only then compares with the IDL.
+pub const C17_SKIP_MANIFEST: &str = r#"{
+  "c17pda::Journal": {"kind": "account", "layout":
+    {"struct": [["owner", "pubkey"], ["count", "u64"], ["scratch", "u16"], ["tail", "u32"]], "skip": 2}},
+  "c17pda::Stamp": {"kind": "account", "layout":
+    {"struct": [["secret", "u32"], ["shown", "u64"]], "skip": 0}},
+  "c17pda::NoteMid": {"kind": "args", "layout":
+    {"struct": [["version", "u8"], ["owner", "pubkey"], ["scratch", "u16"], ["total", "u64"], ["flag", "bool"]], "skip": 2}},
+  "c17pda::NoteLast": {"kind": "args", "layout":
+    {"struct": [["version", "u8"], ["total", "i64"], ["scratch", {"array": ["u8", 3]}]], "skip": 2}},
+  "c17pda::NoteFirst": {"kind": "args", "layout":
+    {"struct": [["secret", "u32"], ["shown", "u64"]], "skip": 0}},
+  "c17pda::NoteEvent": {"kind": "args", "layout":
+    {"struct": [["tag", "u8"], ["event", {"enum": [
+        ["Nothing", 0, null],
+        ["Transfer", 1, {"struct": [["amount", "u64"], ["memo_len", "u8"], ["fee", "u32"]], "skip": 1}],
+        ["Mark", 2, {"struct": [["at", "u32"], ["by", "pubkey"], ["nonce", "u16"]], "skip": 2}],
+        ["Plain", 3, {"struct": [["a", "u16"], ["b", "u8"]], "skip": null}]]}]], "skip": null}}
+}"#;
+
 // ------------------------------------------------------------------------------------------ C17 correspondence glue
 // (what tools/c17_gen.py appends to the copies of the example programs, written by hand here)
 c17_support::fill_struct!([] OpenLedgerClientAccounts { funder, admin, owner, ledger, system_program });
@@ -213,6 +357,7 @@ c17_support::fill_struct!([] VaultClientAccounts { owner, vault, config });
 c17_support::fill_struct!([] MoveFundsClientAccounts { admin, owner, admin_vault, source, dest, receipt });
 c17_support::fill_struct!([] TransferClientAccounts { source, dest, escrow });
 c17_support::fill_struct!([] SettleClientAccounts { admin, legs });
+c17_support::fill_struct!([] NoteClientAccounts { author, journal, stamp });
 
 pub fn __c17_probe() -> c17_support::Probe {
     use c17_support::*;
@@ -222,8 +367,19 @@ pub fn __c17_probe() -> c17_support::Probe {
         ix_facts::<P, OpenLedger, _>(Some(metas_of::<<OpenLedger as StarFrameInstruction>::Accounts<'static, 'static>>(id))),
         ix_facts::<P, MoveFunds, _>(Some(metas_of::<<MoveFunds as StarFrameInstruction>::Accounts<'static, 'static>>(id))),
         ix_facts::<P, Settle, _>(Some(metas_of::<<Settle as StarFrameInstruction>::Accounts<'static, 'static>>(id))),
+        ix_facts::<P, NoteMid, _>(Some(metas_of::<<NoteMid as StarFrameInstruction>::Accounts<'static, 'static>>(id))),
+        ix_facts::<P, NoteLast, _>(Some(metas_of::<<NoteLast as StarFrameInstruction>::Accounts<'static, 'static>>(id))),
+        ix_facts::<P, NoteFirst, _>(Some(metas_of::<<NoteFirst as StarFrameInstruction>::Accounts<'static, 'static>>(id))),
+        ix_facts::<P, NoteEvent, _>(Some(metas_of::<<NoteEvent as StarFrameInstruction>::Accounts<'static, 'static>>(id))),
     ];
-    let accounts = vec![account_facts::<Vault>(), account_facts::<Config>(), account_facts::<Ledger>(), account_facts::<Escrow>()];
+    let accounts = vec![
+        account_facts::<Vault>(),
+        account_facts::<Config>(),
+        account_facts::<Ledger>(),
+        account_facts::<Escrow>(),
+        account_facts::<Journal>(),
+        account_facts::<Stamp>(),
+    ];
     let codecs: Vec<(String, &'static str, bool, Codec)> = vec![
         (star_frame::star_frame_idl::item_source::<Vault>(), "account", true, unsized_account_codec::<Vault>),
         (star_frame::star_frame_idl::item_source::<Config>(), "account", true, unsized_account_codec::<Config>),
@@ -232,6 +388,12 @@ pub fn __c17_probe() -> c17_support::Probe {
         (star_frame::star_frame_idl::item_source::<OpenLedger>(), "args", true, borsh_args_codec::<OpenLedger>),
         (star_frame::star_frame_idl::item_source::<MoveFunds>(), "args", true, borsh_args_codec::<MoveFunds>),
         (star_frame::star_frame_idl::item_source::<Settle>(), "args", true, borsh_args_codec::<Settle>),
+        (star_frame::star_frame_idl::item_source::<Journal>(), "account", true, unsized_account_codec::<Journal>),
+        (star_frame::star_frame_idl::item_source::<Stamp>(), "account", true, unsized_account_codec::<Stamp>),
+        (star_frame::star_frame_idl::item_source::<NoteMid>(), "args", true, borsh_args_codec::<NoteMid>),
+        (star_frame::star_frame_idl::item_source::<NoteLast>(), "args", true, borsh_args_codec::<NoteLast>),
+        (star_frame::star_frame_idl::item_source::<NoteFirst>(), "args", true, borsh_args_codec::<NoteFirst>),
+        (star_frame::star_frame_idl::item_source::<NoteEvent>(), "args", true, borsh_args_codec::<NoteEvent>),
     ];
     Probe {
         name: "c17pda",
